@@ -4,6 +4,7 @@ usage: python -m vf.worker PROP TIER SEED SHARD NSHARDS OUT.json [REPLAY.json]
 """
 import faulthandler
 import importlib
+import signal
 import json
 import os
 import sys
@@ -39,16 +40,33 @@ def main(argv):
         else:
             rng = np.random.Generator(np.random.PCG64([seed, shard, 0xC0DE]))
             cases = mod.cases(rng, tier, shard, nshards)
+        case_timeout = int(getattr(mod, 'CASE_TIMEOUT', 120))
+
+        class _CaseTimeout(BaseException):
+            pass
+
+        def _on_alarm(signum, frame):
+            raise _CaseTimeout()
+        signal.signal(signal.SIGALRM, _on_alarm)
         for case in cases:
             ctx.current_case = case
             ctx.evaluations += 1
+            signal.alarm(case_timeout)
             try:
                 mod.run_case(case, ctx)
+            except _CaseTimeout:
+                # a generous per-case watchdog (the oracle, e.g. a 50-digit evaluation at an absurd argument, or the
+                # library got stuck): the case carries no verdict
+                ctx.count('case_watchdog_fired(no verdict)')
+                if len(harness_errors) < 5 and ctx.counters.get('case_watchdog_fired(no verdict)', 0) > max(5, ctx.evaluations // 100):
+                    harness_errors.append(dict(case=repr(case)[:600], tb='per-case watchdog fired on more than 1 % of the cases'))
             except Exception:
                 ctx.count('harness_error')
                 if len(harness_errors) < 5:
                     harness_errors.append(dict(case=repr(case)[:600],
                                                tb=traceback.format_exc(limit=8)))
+            finally:
+                signal.alarm(0)
         post = getattr(mod, 'post', None)
         if post is not None:
             post(ctx)
